@@ -266,6 +266,8 @@ SolveEnd ==
                 ELSE "accept"
   /\ pc' = "end"
   /\ PrintT(<<"WORK", P.key, inj.name, tpops, spops>>)      \* the iteration counts this run of the machine predicts for the real loops
+  /\ (verdict' # "accept" \/ PrintT(<<"PLAN", P.key, inj.name, ToJson([a \in DOMAIN SelectSeq(calls, LAMBDA c : c.kind = "func") |->
+                                      P.leaves[SelectSeq(calls, LAMBDA c : c.kind = "func")[a].leaf].name])>>))   \* the order of provider calls it plans
   /\ UNCHANGED <<cur, pm, sm, mapErrs, impKeys>> /\ UNCH_L /\ UNCH_A /\ UNCH_S
 
 Next == MapArg \/ MapImportNext \/ MapImportKey \/ MapLeafOut \/ MapBinding \/ MapFail \/ AcyStart \/ AcyPop \/ CycFail \/ LevelDone \/ SolvePop \/ SolveEnd
